@@ -19,6 +19,9 @@ func c12Body(r *simcore.Run) {
 	s := newSQLEnv(r, "sql-0")
 	s.mustExec("CREATE TABLE t (id INTEGER, a INTEGER NOT NULL, b VARCHAR[6], c INTEGER, PRIMARY KEY id, CHECK (c IS NULL OR c >= 0))")
 	s.mustExec("CREATE TABLE g (id INTEGER AUTO_INCREMENT, a INTEGER, PRIMARY KEY id)")
+	// composite unique index, present from the start
+	s.mustExec("CREATE TABLE u (id INTEGER, p INTEGER NOT NULL, q INTEGER NOT NULL, PRIMARY KEY id)")
+	s.mustExec("CREATE UNIQUE INDEX ON u(p, q)")
 	lateIndex := r.Pct(40)
 	s.lateIndex = lateIndex
 	if !lateIndex {
@@ -37,7 +40,18 @@ func c12Body(r *simcore.Run) {
 		}
 		b := []string{"'x'", "'yy'", "'zzzzzz'", "'toolongvalue'", "NULL"}[r.Intn(5)]
 		c := []string{"0", "5", "-1", "NULL"}[r.Intn(4)]
-		switch r.Intn(10) {
+		switch r.Intn(14) {
+		case 10:
+			return fmt.Sprintf("INSERT INTO u (id, p, q) VALUES (%d, %d, %d)", id, r.Intn(3), r.Intn(2))
+		case 11:
+			return fmt.Sprintf("UPSERT INTO u (id, p, q) VALUES (%d, %d, %d)", id, r.Intn(3), r.Intn(2))
+		case 12:
+			if r.Bool() {
+				return fmt.Sprintf("UPDATE u SET p = %d WHERE id = %d", r.Intn(3), id)
+			}
+			return fmt.Sprintf("UPDATE u SET q = %d WHERE id = %d", r.Intn(2), id)
+		case 13:
+			return fmt.Sprintf("DELETE FROM u WHERE id = %d", id)
 		case 0, 1, 2, 3:
 			return fmt.Sprintf("INSERT INTO t (id, a, b, c) VALUES (%d, %s, %s, %s)", id, a, b, c)
 		case 4:
@@ -210,6 +224,23 @@ func c12Invariants(s *sqlEnv, what string) {
 	brows, err := s.query(nil, "SELECT id, a, b, c FROM t USE INDEX ON (b)")
 	if err == nil && what != "during the workload" && fmt.Sprint(sortedCopy(rowsKey(brows))) != fmt.Sprint(sortedCopy(rowsKey(rows))) {
 		r.Violation("index-table-mismatch", "", "%s: scan through the index on b returns %v, scan through the primary key %v", what, brows, rows)
+	}
+	urows, err := s.query(nil, "SELECT id, p, q FROM u")
+	if err == nil {
+		pq := map[string]string{}
+		for _, row := range urows {
+			k := row[1] + "," + row[2]
+			if other, dup := pq[k]; dup {
+				r.Violation("unique-duplicate", "unique-duplicate-composite", "%s: rows id=%s and id=%s of u both hold (p,q)=(%s) although a unique index on (p, q) exists: %v", what, other, row[0], k, urows)
+			}
+			pq[k] = row[0]
+		}
+		irows, err := s.query(nil, "SELECT id, p, q FROM u USE INDEX ON (p, q)")
+		if err == nil && what != "during the workload" && fmt.Sprint(sortedCopy(rowsKey(irows))) != fmt.Sprint(sortedCopy(rowsKey(urows))) {
+			r.Violation("index-table-mismatch", "", "%s: scan of u through the unique index on (p, q) returns %v, scan through the primary key %v", what, irows, urows)
+		}
+	} else if !isBenignTxErr(err) {
+		r.Violation("scan-error", "", "%s: scanning u failed: %v", what, err)
 	}
 	grows, err := s.query(nil, "SELECT id FROM g")
 	if err == nil {
